@@ -242,6 +242,44 @@ def end_pairing(repo: Repo) -> RuleRun:
         a2, b2 = (0 if a is None else a), (5 if b is None else b)
         want = pts[a2 : b2 + 1] if a2 <= b2 else list(reversed(pts[b2 : a2 + 1]))
         r.check(res == want, dd, f"discretize({a},{b}) = {res}", f"DiscreteCurve.discretize({a}, {b}) returns {res}; expected {want} (both end points included, in the requested direction)", dd.node, key=f"discretize:{a}:{b}")
+    # a parameter between two points (legal on a curve given by points): get_point(p) and the ends of discretize(p, q) are siblings -
+    # whichever point a fractional parameter stands for, all of them answer with the same one
+    gp = repo.find_method(repo.cls("construct.curves.discrete.DiscreteCurve"), "get_point")
+    r.require(gp is not None, "DiscreteCurve.get_point vanished")
+
+    def fhook(ev, call: ast.Call, nm):
+        if nm in ("int", "round") and len(call.args) == 1:
+            v = ev.eval(call.args[0])
+            if isinstance(v, (int, float)) and not isinstance(v, bool):
+                return int(v) if nm == "int" else round(v)
+        if nm in ("np.floor", "np.ceil", "math.floor", "math.ceil", "np.rint") and len(call.args) == 1:
+            import math as _m
+
+            v = ev.eval(call.args[0])
+            if isinstance(v, (int, float)):
+                return {"floor": _m.floor, "ceil": _m.ceil, "rint": round}[nm.split(".")[-1]](v)
+        return dhook(ev, call, nm)
+
+    for p_, q_ in ((4.6, 1.2), (1.2, 4.6), (2.5, 3.5), (0.7, 4.4)):
+        outs = {}
+        for what, fn_, args in (("get_point(p)", gp, [p_]), ("get_point(q)", gp, [q_]), ("discretize(p, q)", dd, [p_, q_])):
+            this = Obj("curve", cls=repo.cls("construct.curves.discrete.DiscreteCurve"))
+            this.set("array", list(pts))
+            this.set("bounds", (0, 5))
+            ev_ = Evaluator(repo=repo, module=fn_.module, call_hook=fhook)
+            ev_.float_arith = True
+            outs[what] = _run(ev_, fn_, [this, *args])
+        d_ = outs["discretize(p, q)"]
+        ok = isinstance(d_, list) and d_ and d_[0] == outs["get_point(p)"] and d_[-1] == outs["get_point(q)"]
+        r.check(
+            ok,
+            dd,
+            f"p = {p_}, q = {q_}: discretize(p, q) runs from get_point(p) to get_point(q)",
+            f"DiscreteCurve: get_point({p_}) = {outs['get_point(p)']}, get_point({q_}) = {outs['get_point(q)']}, but discretize({p_}, {q_}) = {d_}: a parameter between two points is resolved to one point by "
+            "get_point and to another by discretize / get_length (one truncates, the other rounds) - the stretch handed out does not end at the point of its own end parameter",
+            dd.node,
+            key=f"fractional:{p_}:{q_}",
+        )
     for bad in (-1, 6):
         this = Obj("curve", cls=repo.cls("construct.curves.discrete.DiscreteCurve"))
         this.set("array", list(pts))
